@@ -1,0 +1,61 @@
+//go:build verif
+
+package codec
+
+// Contracts for property C37, supervisor, receiving side: the supervisor is rebuilt
+// from exactly what the wire message carries - strategy, retry budget and window,
+// the any-error directive, and one directive per named rule (none skipped, each
+// under its own error type).
+
+//@ property C37
+
+//@ ghost local ds_strat internalpb.SupervisorStrategy
+//@ ghost local ds_pb *durationpb.Duration
+//@ ghost local ds_to time.Duration
+//@ ghost local ds_to_set bool
+//@ ghost local ds_retries uint32
+//@ ghost local ds_any internalpb.SupervisorDirective
+//@ ghost local ds_sup *supervisor.Supervisor
+//@ ghost local ds_rule *internalpb.SupervisorDirectiveRule
+//@ ghost local ds_et string
+//@ ghost local ds_dir internalpb.SupervisorDirective
+//@ ghost local ds_named int
+//@ ghost local ds_applied int
+//@ ghost local ds_retry_applied bool
+
+//@ func DecodeSupervisor(spec)
+//@   ghost entry ds_to_set = false
+//@   ghost entry ds_named = 0
+//@   ghost entry ds_applied = 0
+//@   ghost entry ds_retry_applied = false
+//@   at call 1 of (*SupervisorSpec).GetStrategy assert arg0 == spec
+//@   at call 1 of (*SupervisorSpec).GetStrategy ghost ds_strat = result
+//@   at call 1 of WithStrategy assert rebuilds-with-the-received-strategy: arg0 == decodeSupervisorStrategy(ds_strat)
+//@   at call 1 of (*SupervisorSpec).GetTimeout assert arg0 == spec
+//@   at call 2 of (*SupervisorSpec).GetTimeout assert arg0 == spec
+//@   at call 2 of (*SupervisorSpec).GetTimeout ghost ds_pb = result
+//@   at call 1 of (*Duration).AsDuration assert arg0 == ds_pb
+//@   at call 1 of (*Duration).AsDuration ghost ds_to = result
+//@   at call 1 of (*Duration).AsDuration ghost ds_to_set = true
+//@   at call 1 of (*SupervisorSpec).GetMaxRetries assert arg0 == spec
+//@   at call 1 of (*SupervisorSpec).GetMaxRetries ghost ds_retries = result
+//@   at call 2 of (*SupervisorSpec).GetMaxRetries assert arg0 == spec
+//@   at call 1 of WithRetry assert rebuilds-with-the-received-budget-and-window: arg0 == ds_retries && arg1 == ite(ds_to_set, ds_to, 0)
+//@   at call 1 of WithRetry ghost ds_retry_applied = true
+//@   at call 1 of (*SupervisorSpec).GetAnyErrorDirective assert arg0 == spec
+//@   at call 1 of (*SupervisorSpec).GetAnyErrorDirective ghost ds_any = result
+//@   at call 1 of WithAnyErrorDirective assert rebuilds-with-the-received-any-error-directive: arg0 == decodeSupervisorDirective(ds_any)
+//@   at call 1 of NewSupervisor assert any-error-supervisor-gets-every-option: len(arg0) >= 2
+//@   at call 2 of NewSupervisor ghost ds_sup = result
+//@   loop 1 invariant every-named-rule-applied-so-far: ds_applied == ds_named
+//@   at call 1 of (*SupervisorDirectiveRule).GetErrorType ghost ds_rule = arg0
+//@   at call 1 of (*SupervisorDirectiveRule).GetErrorType ghost ds_et = result
+//@   at call 1 of (*SupervisorDirectiveRule).GetErrorType ghost ds_named = ds_named + ite(result != "", 1, 0)
+//@   at call 1 of (*SupervisorDirectiveRule).GetDirective assert reads-the-same-rule: arg0 == ds_rule
+//@   at call 1 of (*SupervisorDirectiveRule).GetDirective ghost ds_dir = result
+//@   at call 1 of (*Supervisor).SetDirectiveByType assert applies-the-rule-under-its-own-error-type: arg0 == ds_sup && arg1 == ds_et && ds_et != "" && arg2 == decodeSupervisorDirective(ds_dir)
+//@   at call 1 of (*Supervisor).SetDirectiveByType ghost ds_applied = ds_applied + 1
+//@   ensures nil-stays-nil: spec == nil ==> result == nil
+//@   ensures retry-budget-survives: spec != nil && (spec.Timeout != nil || spec.MaxRetries != 0) ==> ds_retry_applied
+//@   ensures every-named-rule-applied: ds_applied == ds_named
+//@   ensures returns-the-supervisor-the-rules-went-into: spec != nil && spec.AnyErrorDirective == nil ==> result == ds_sup
